@@ -37,6 +37,17 @@ func gen(c *hmain.Ctx) {
 	// unlimited (MinRetention past the 15 min MaxElapsedTime crossing), without and with a (blocking) dead queue.  The
 	// dead-queue cases share the stream (and the recorded frontier finding) of the older dead-queue family
 	add("retry-stop", pipedrv.FamRetryStop, 14)
+	// families first built for C02 / C04 (a discard overtaking a held event, the stream
+	// time-out racing a put, processors added at run time): a frontier violation can hide behind each of them too
+	// (the commit-race family, 1500-2500 events per case, stays with C02 / C04 / C05: the frontier monitors of C01 are
+	// quadratic in the trace length)
+	add("discard-before-hold", pipedrv.FamDiscardBeforeHold, 20)
+	for i := 0; i < 8*c.Scale; i++ {
+		jobs = append(jobs, &pipedrv.Job{Stream: "timeout-vs-put", Case: pipedrv.TimeoutVsPut(2+2*(i%2), i%4 < 2, i%8 < 4)})
+	}
+	for i := 0; i < c.Scale; i++ {
+		jobs = append(jobs, &pipedrv.Job{Stream: "expand-procs", Case: pipedrv.ExpandProcs(2500, 1600, 2+i%3, i%2 == 1)})
+	}
 	add("deadqueue", pipedrv.FamDeadQStop, 16)
 	for i, retry := range []int{3, -1, 1, 0} {
 		for _, dq := range []bool{false, true} {
